@@ -94,6 +94,22 @@ class C06(Prop):
                     yield mk_num_case("geometric_mean", et, [([len(data)], data, la)])
                     yield mk_num_case("harmonic_mean", et, [([len(data)], data, la)])
 
+        # a zero (or +inf) among positive data, at the front, in the middle and at the end: ln 0 = -inf resp. 1/0 = +inf are
+        # legitimate intermediate values; the geometric mean is 0 (+inf), the harmonic mean 0 (the mean of the finite part)
+        for rep in range(3 if tier == "quick" else 60):
+            for et in FLOATS:
+                fp = FP(et)
+                n = rng.range(2, 7)
+                base = [fp.r(rng.range(1, 40) / 4.0) for _ in range(n)]
+                for special in (0.0, float("inf")):
+                    for pos in sorted(set([0, n // 2, n - 1])):
+                        data = list(base)
+                        data[pos] = special
+                        shape = [n] if rep % 2 == 0 or n % 2 else [2, n // 2]
+                        la = rng.choice(zoo(shape, rng, 2))
+                        yield mk_num_case("geometric_mean", et, [(shape, data, la)])
+                        yield mk_num_case("harmonic_mean", et, [(shape, data, la)])
+
         # data and weights as two views into ONE allocation
         for rep in range(6 if tier == "quick" else 200):
             for et in FLOATS + INTS:
@@ -177,7 +193,9 @@ class C06(Prop):
             return [] if got == want else ["value: %s = %d, exact integer arithmetic gives %d" % (r, got, want)]
         fp = FP(et)
         g = fval(et, got)
-        X = [Fraction(v) for v in x]
+        X = [Fraction(v) for v in x] if all(finite(v) for v in x) else None
+        if X is None and r not in ("harmonic_mean", "geometric_mean"):
+            return []
         if r == "mean":
             exact, mag = sum(X) / n, sum(abs(v) for v in X) / n
         elif r == "weighted_sum":
@@ -192,12 +210,24 @@ class C06(Prop):
             kappa = sum(abs(v) for v in W) / abs(sw)
             mag = sum(abs(a * b) for a, b in zip(X, W)) / abs(sw) * (1 + kappa)
         elif r == "harmonic_mean":
-            s = sum(1 / v for v in X)
+            xs = [float(v) for v in x]
+            if any(v == 0 for v in xs):
+                if all(v >= 0 for v in xs):
+                    # 1/0 = +inf dominates the sum of reciprocals: the harmonic mean of non-negative data with a zero is 0
+                    return [] if g == 0.0 else ["value: harmonic_mean of non-negative data containing a zero = %r, expected 0" % g]
+                return []
+            s = sum(1 / Fraction(v) for v in xs if v != float("inf") and v != float("-inf"))
+            if s == 0:
+                return []
             exact, mag = n / s, n / s
         else:
             # geometric mean of positive data: exp(mean ln x) in double precision; a relative error of
             # (n + 16) * 8u * (1 + mean |ln x|) covers the rounding of the log-sum and of exp
             import math
+            if all(v >= 0 for v in x) and any(v == 0 for v in x) and not any(v == float("inf") for v in x):
+                return [] if g == 0.0 else ["value: geometric_mean of non-negative data containing a zero = %r, expected 0" % g]
+            if all(v > 0 for v in x) and any(v == float("inf") for v in x):
+                return [] if g == float("inf") else ["value: geometric_mean of positive data containing +inf = %r, expected +inf" % g]
             if any(v <= 0 or v != v or v in (float("inf"),) for v in x):
                 return []
             lns = [math.log(v) for v in x]
